@@ -515,28 +515,42 @@ def rsp_variant(ctx):
                 continue
             ch = _channel_local(body, t["ops"][0])
             want, enq = expect.get(ch, (None, None))
-            # the closure(s) applied to the awaited value
+            # the match applied to the awaited value: in the flattened body (closures of map/and_then inlined, `let else`,
+            # plain `match` all look alike) the first switch on an RxPacket discriminant after this await and before
+            # the next await of a completion
             matched = None
             whole = None
             site = body.site(a["poll_bb"])
-            for i, tt in body.calls(r"result::Result::map$"):
-                if not body.dominates(a["ready_bb"], i):
+            later = [x["ready_bb"] for x in body.awaits() if x is not a and body.dominates(a["ready_bb"], x["ready_bb"]) and x["ready_bb"] != a["ready_bb"]
+                     and "oneshot::Receiver" in ((body.term(x["poll_bb"])["callee"].get("self_ty") or "") + " " + (body.term(x["poll_bb"])["callee"].get("resolved") or ""))]
+            cands = []
+            for sb in sorted(body.reach):
+                si = body.switch_info(sb)
+                if not si or si["kind"] != "discr" or si.get("adt") != RXPACKET:
                     continue
-                src_at = body.atoms(tt["ops"][0])
-                if not any(x[0] == "call" and "oneshot::Receiver" in x[1] for x in src_at):
+                if not body.dominates(a["ready_bb"], sb) or any(body.dominates(l_, sb) for l_ in later):
                     continue
-                # nearest: the receiver polled must be the one of this await
-                if _channel_local(body, _poll_operand_of(body, tt["ops"][0])) != ch:
+                cands.append((sb, si))
+            for sb, si in cands:
+                listed = [si["variants"].get(v, str(v)) for v, _ in si["targets"]]
+                if len(listed) != 1:
+                    matched = "+".join(sorted(listed)) or "none"
+                    site = body.site(sb)
                     continue
-                for x in body.atoms(tt["ops"][1]):
-                    if x[0] == "closure":
-                        cb = ctx.world.body(x[1])
-                        sw, arms, otherwise, other_vs, si = match_arms(cb, RXPACKET)
-                        if len(arms) == 1:
-                            matched = list(arms)[0]
-                            ret = cb.atoms({"l": 0, "p": []})
-                            whole = any(y[0] == "downcast" and y[1] == matched for y in ret)
-                            site = cb.site(sw)
+                matched = listed[0]
+                site = body.site(sb)
+                entry = si["targets"][0][1]
+                pl = si["place"]
+                whole = False
+                for x in body.reachable_from(entry):
+                    if not body.dominates(entry, x):
+                        continue
+                    for st_ in body.blocks[x]["stmts"]:
+                        if st_["k"] == "assign" and st_["rv"]["k"] == "use" and st_["rv"]["op"].get("k") in ("move", "copy"):
+                            q = st_["rv"]["op"]["pl"]
+                            if q["l"] == pl["l"] and len(q["p"]) == len(pl["p"]) + 2 and isinstance(q["p"][-2], dict) and q["p"][-2].get("dc") == matched:
+                                whole = True
+                break
             if want is None and matched is None:
                 continue        # fire-and-forget: nothing to match
             ok = matched == want and (bool(whole) or want == "Pingresp")    # PINGRESP has no content to carry
